@@ -866,6 +866,39 @@ def derived_filters(names, k):
     return uniq
 
 
+def slice_validate_counts(ctx, sink):
+    """`mpq validate` on archives in which K of N members cannot be read, K at and around the values where a count stops
+    fitting an exit status (after C20-r5m2): any K > 0 is a failed validation, K = 0 a passed one. The archives come from the
+    independent writer; a damaged member is a zlib member whose stored bytes behind the sector table are overwritten."""
+    import refmpq
+    d = ctx.newdir("validate-counts")
+    jobs = []
+    for k_bad in ((0, 1, 255, 256, 257, 512) if ctx.thorough else (0, 1, 256, 257)):
+        n = max(k_bad + 3, 8)
+        files = [refmpq.RefFile("v\\f%04d.txt" % i, (b"member %04d of a validation fixture; " % i) * 8, 0x02) for i in range(n)]
+        arc, info = refmpq.write_archive(files, version=1, shift=3, listfile=True)
+        arc = bytearray(arc)
+        for i in range(k_bad):
+            pos, csize, _fsize, _flags = info["blocks"][i]
+            for j in range(pos + 9, pos + csize):
+                arc[j] = 0xFF
+        path = os.path.join(d, "k%d.mpq" % k_bad)
+        with open(path, "wb") as f:
+            f.write(arc)
+        jobs.append((k_bad, n, path))
+    outs = pmap(lambda j: ctx.run_cli(["mpq", "validate", j[2]]), jobs)
+    for (k_bad, n, path), r in zip(jobs, outs):
+        viols = []
+        detail = {"cmd": short_cmd(["mpq", "validate", path], ctx.scratch), "members": n, "unreadable": k_bad, "stdout": r["out"][-300:], "stderr": r["err"][-300:]}
+        if r["rc"] is not None:
+            if k_bad > 0 and r["rc"] == 0:
+                viols.append(("exit0-but-failed", f"`mpq validate` exited 0 on an archive in which {k_bad} of {n} members cannot be read", detail))
+            if k_bad == 0 and r["rc"] != 0:
+                viols.append(("valid-input-rejected", f"`mpq validate` exited {rc_class(r['rc'])} on an intact archive written by the independent writer", detail))
+        sink.res.add_counter("validate_runs_by_damaged_member_count", 1)
+        sink.record("mpq", "validate", "valid" if k_bad == 0 else "damaged-members", "k%d" % k_bad, r, viols, replay={"slice": "V", "k": k_bad})
+
+
 def slice_list_info(ctx, sink, archives):
     res = sink.res
     views = lib_view(ctx, [{"id": str(a["idx"]), "path": a["path"]} for a in archives], "B")
@@ -1639,6 +1672,7 @@ def run(tier, seed, scratch, t0):
     slice_overwrite(ctx, sink, archives, filesets)
     unw_archives = slice_unwritable_names(ctx, sink)
     slice_same_basenames(ctx, sink)
+    slice_validate_counts(ctx, sink)
     sup.log(f"[C20] A2/A3 done, {res.cases} runs ({time.time()-t0:.1f}s)")
     views = slice_list_info(ctx, sink, archives + dir_archives + unw_archives)
     sup.log(f"[C20] B done, {res.cases} runs ({time.time()-t0:.1f}s)")
@@ -1665,6 +1699,8 @@ def replay(rp, scratch):
     sl = r.get("slice")
     if sl == "A3":
         slice_unwritable_names(ctx, sink)
+    elif sl == "V":
+        slice_validate_counts(ctx, sink)
     elif sl in ("A", "A-dirs", "B", "C2", "C3", "D"):
         archives, filesets = slice_roundtrip(ctx, sink)
         dirs = slice_dirs(ctx, sink, filesets)
